@@ -633,6 +633,14 @@ pub fn diff(env: &Env, a: &Ty, b: &Ty) -> Option<String> {
                     let only_f: Vec<String> = fi.difference(&gi).map(|x| x.to_string()).collect();
                     let only_g: Vec<String> = gi.difference(&fi).map(|x| x.to_string()).collect();
                     let k = if matches!(ua, Ty::Record(_)) { "record" } else { "variant" };
+                    // one recognised cause gets a signature of its own: every numeric id N that went
+                    // missing came back as the hash of the *name* "_N_" (and nothing else changed)
+                    let src_only: Vec<u32> = fi.difference(&gi).copied().collect();
+                    let emitted_only: BTreeSet<u32> = gi.difference(&fi).copied().collect();
+                    let as_names: BTreeSet<u32> = src_only.iter().map(|n| refmodel::hash::idl_hash(&format!("_{n}_"))).collect();
+                    if !src_only.is_empty() && as_names == emitted_only {
+                        return Some(format!("{k} labels numeric id N emitted as the name _N_"));
+                    }
                     return Some(format!("{k} labels {{{}}} emitted as {{{}}}", only_f.join(","), only_g.join(",")));
                 }
                 f.iter().zip(g).find_map(|(x, y)| go(env, &x.1, &y.1, seen))
